@@ -1,6 +1,6 @@
 (* GENERATED ONCE by tools/pin.py from Properties/C15.v and committed: the pinned statements. *)
 From VF.Properties Require C15.
-From VF Require Import Base Status StatusSpec Status_proofs.
+From VF Require Import Base Status StatusSpec Status_proofs Contrib ContribSpec Contrib_proofs.
 Open Scope N_scope.
 
 
@@ -22,3 +22,9 @@ Check (VF.Properties.C15.C15_low_bits_faithful : forall x i, i < 15 -> N.testbit
 Check (VF.Properties.C15.C15_preset_values : forall r,
   enable (reg_preset r) = 0 /\ ptr_filter (reg_preset r) = m16 /\ ntr_filter (reg_preset r) = 0
   /\ event (reg_preset r) = event r).
+Check (VF.Properties.C15.C15_full_stack_refines : forall msgs mav us,
+  forallb (fun m => forallb renderable (snd m)) msgs = true -> forallb renderable us = true ->
+  dev_message (session_ops dev_init msgs) mav (units_text us) = Val (op_message (session_ops dev_init msgs) mav us)).
+Check (VF.Properties.C15.C15_full_stack_refines_iff : forall d,
+  (forall mav us, forallb renderable us = true -> dev_message d mav (units_text us) = Val (op_message d mav us))
+  <-> queue_printable d = true).
